@@ -53,7 +53,8 @@ CORE = ['wl_registry', 'wl_callback', 'wl_compositor', 'wl_shm', 'wl_shm_pool', 
         'zwlr_layer_surface_v1', 'zxdg_decoration_manager_v1', 'wp_viewporter', 'zwp_linux_dmabuf_v1']
 UNKNOWN_IFACES = ['my_unknown_iface', 'zz_custom_v9', 'new', 'x']
 STRS = ['', 'a', 'wl_seat', 'wl_shm', 'hello world', 'a, b', 'x) y', '(p', '[q]', 'wl_surface@3', 'nil', '12', 'new id wl_a@4', 'ünï', "it's", 'fd 3',
-        'array', ' lead', 'trail ', 'org.gnome.gedit', 'foo.bar.Baz', 'title: x', '}', '{', '1.5', '[1.0] a@1.b(']
+        'array', ' lead', 'trail ', 'org.gnome.gedit', 'foo.bar.Baz', 'title: x', '}', '{', '1.5', '[1.0] a@1.b(',
+        '[5.000]  -> wl_surface@9.commit()', '[   7.250]  -> wl_x#3.y(1)']      # a whole sent-looking message with its own time inside a string
 FREE_NAMES = ['ping', 'set_thing', 'done', 'new', 'destroyed', 'configure', 'commit']
 I32 = [0, 1, -1, 7, 2, 3, 4, 8, 16, 272, 273, 274, -2147483648, 2147483647]
 U32 = [0, 1, 2, 3, 4, 5, 7, 8, 15, 16, 255, 4294967295]
@@ -94,6 +95,9 @@ class ConnGen:
         return i
 
     def alloc_server(self, d):
+        if getattr(self, '_force_server_id', None) is not None:
+            i, self._force_server_id = self._force_server_id, None
+            return i
         used = sorted(i for i in list(self.live) + list(self.dead) if i >= SERVER_BASE)
         if used and d.chance(self.profile.get('server_reuse', 0.5)):
             return d.choice(used)      # may be alive: implicit destruction
@@ -271,6 +275,46 @@ class ConnGen:
         oid, iface, pm = d.choice(cands)
         return self._protocol_message(d, oid, iface, pm)
 
+    def step_server_retype(self, d):
+        """the server hands out an id of its range again, this time for an object of a *different* interface (the previous holder
+        may be alive: implicit destruction), and the next message targets the new object"""
+        P = protocols()
+        used = sorted(i for i in list(self.live) + list(self.dead) if i >= SERVER_BASE)
+        cands = []
+        for oid, iface in sorted(self.live.items()):
+            pi = P.get(iface)
+            if pi is None:
+                continue
+            for m in pi.msgs:
+                if m.is_event and sum(1 for a in m.args if a.type == 'new_id' and a.interface) == 1:
+                    cands.append((oid, iface, m))
+        self._retype_chain = True          # the following steps should continue towards the hand-out (see next())
+        if not cands:
+            return self.step_bind(d, iface=d.choice(_NEWID_EVENT_IFACES)) if _NEWID_EVENT_IFACES else None
+        if not used:
+            return self.step_server_event(d)
+        pairs = []
+        for oid, iface, pm in cands:
+            newt = next(a.interface for a in pm.args if a.type == 'new_id' and a.interface)
+            other = [i for i in used if self.iface_of(i) != newt and i != oid]
+            if other:
+                pairs.append((oid, iface, pm, newt, other))
+        if not pairs:
+            # every event at hand creates the interface the used ids already have: bring in an object whose events create another
+            have = {self.iface_of(i) for i in used}
+            more = [n for n in _NEWID_EVENT_IFACES if n not in self.live.values() and any(
+                m.is_event and any(a.type == 'new_id' and a.interface and a.interface not in have for a in m.args) for m in P[n].msgs)]
+            return self.step_bind(d, iface=d.choice(more)) if more else self.step_server_event(d)
+        oid, iface, pm, newt, other = d.choice(pairs)
+        sid = other[0] if d.chance(0.5) else d.choice(other)
+        self._force_server_id = sid
+        m = self._protocol_message(d, oid, iface, pm)
+        self._force_server_id = None
+        if m is not None and self.live.get(sid) == newt:
+            self.focus = sid
+            self._retype_chain = False
+        return m
+
     def step_enum_message(self, d):
         """a message with an enum-typed argument (labels, bitfield unions): dedicated class"""
         protocols()
@@ -417,6 +461,16 @@ class ConnGen:
             self._born(i, t)
         return dict(sent=self.sent(pm.is_event), iface=iface, id=oid, name=pm.name, args=args)
 
+    def step_repeat(self, d):
+        """the very same message once more (two commits in a row, a burst of identical motion events): legal, and with a zero gap
+        the two lines are identical character for character"""
+        m = getattr(self, 'last', None)
+        if m is None or any(a[0] == 'new' for a in m['args']) or (m['iface'] == 'wl_display' and m['name'] == 'delete_id'):
+            return None
+        if m['id'] not in self.live or any(a[0] == 'obj' and a[2] is not None and a[2] not in self.live for a in m['args']):
+            return None
+        return dict(sent=m['sent'], iface=m['iface'], id=m['id'], name=m['name'], args=[list(a) for a in m['args']])
+
     def step_nulls(self, d):
         """a message whose nullable object arguments are all nil (nil arguments carry only their *declared* interface)"""
         P = protocols()
@@ -486,11 +540,13 @@ class ConnGen:
                 m = self.step_first(d)
                 self.nmsg += 1
                 return m
-        w = self.profile.get('weights') or dict(delete=14, bind=12, message=40, server_event=10, deep=0, sync=4, enum=8, title=6, retype=6, newer=4, nulls=4)
+        w = self.profile.get('weights') or dict(delete=14, bind=12, message=40, server_event=10, deep=0, sync=4, enum=8, title=6, retype=6, newer=4, nulls=4, repeat=4)
         if kind is None:
             kind = d.weighted([(v, k) for k, v in sorted(w.items()) if v > 0])
             if getattr(self, '_title_next', False) and w.get('title') and d.chance(0.7):
                 kind = 'title'
+            if getattr(self, '_retype_chain', False) and w.get('server_retype') and d.chance(0.6):
+                kind = 'server_retype'
         m = None
         if kind == 'delete': m = self.step_delete(d)
         elif kind == 'bind': m = self.step_bind(d)
@@ -499,9 +555,11 @@ class ConnGen:
         elif kind == 'enum': m = self.step_enum_message(d)
         elif kind == 'title': m = self.step_title(d)
         elif kind == 'retype': m = self.step_retype(d)
+        elif kind == 'server_retype': m = self.step_server_retype(d)
         elif kind == 'kinds': m = self.step_kinds(d)
         elif kind == 'newer': m = self.step_newer(d)
         elif kind == 'nulls': m = self.step_nulls(d)
+        elif kind == 'repeat': m = self.step_repeat(d)
         elif kind == 'midsession': m = self.step_midsession(d)
         elif kind == 'appid': m = self.step_appid(d)
         elif kind == 'arrays': m = self.step_arrays(d)
@@ -510,6 +568,7 @@ class ConnGen:
         if m is None:
             m = self.step_message(d)
         self.nmsg += 1
+        self.last = m
         return m
 
 
@@ -539,6 +598,8 @@ def history(d, nconn=None, nmsg=None, tagged=None, profile=None, t0=None, gaps=N
             t = min(t + next_gap(d, gaps), T_MAX)     # stated bound: no 32-bit wrap-around of libwayland's clock
         m = c.next(d)
         m['conn'] = c.tag
+        if out and m['conn'] == out[-1]['conn'] and all(m[k] == out[-1][k] for k in ('sent', 'iface', 'id', 'name', 'args')) and d.chance(0.5):
+            t = out[-1]['t_us']      # an exact duplicate of the previous line
         m['t_us'] = t
         out.append(m)
     return out
@@ -558,10 +619,12 @@ def labels_of(hist):
     for r in recs:
         m = r['m']
         if r['implicit']: L.add('server-range-reuse')
+        if any(o.iface != c.iface for o in r['implicit'] for c in r['created'] if c.id == o.id): L.add('server-range-reuse-other-interface')
         if not r['target_alive'] or any(o is not None and not al for o, al in zip(r['args'], r['args_alive'])): L.add('dead-mention')
         if m['name'] == 'bind' and m['iface'] == 'wl_registry' and m['args'][1][1] in UNKNOWN_IFACES: L.add('bind-unknown-iface')
         if any(a[0] == 'new' and a[2] >= SERVER_BASE for a in m['args']): L.add('event-created-object')
         if not m['args']: L.add('zero-arg-message')
+        if len(recs) > 1 and r is not recs[0] and any(p['m'] is not m and p['conn'] is r['conn'] and all(p['m'][k] == m[k] for k in ('sent', 'iface', 'id', 'name', 'args', 't_us')) for p in recs[max(0, recs.index(r) - 1):recs.index(r)]): L.add('duplicate-line')
         if r['destroyed'] is not None: L.add('delete_id')
         if getattr(r['target'], 'ghost', False): L.add('unseen-target' + ('-creates' if r['created'] else ''))
         if any(getattr(o, 'ghost', False) for o in r['args'] if o is not None): L.add('unseen-object-arg')
